@@ -162,3 +162,5 @@ def check(ctx):
     ctx.run('C06.R4b', 'LIFE-5 resource access discipline in poll_inner', life.life5)
     ctx.run('C06.R5', 'ReceiveSignals::into_inner: ManuallyDrop before its single OpState::drop', r5_into_inner)
     ctx.run('C06.R6', 'cancel acknowledgements (CANCEL_USER_DATA) filtered before any pointer is formed (C05.R4)', lambda r, facts: c05.r4_filter_first(r, facts, only={facts.const('io_uring::cq::CANCEL_USER_DATA')}))
+    from . import c12
+    ctx.run('C06.R9', 'dropping the Ring reclaims abandoned operations: teardown always flushes, cancels and reaps (no early exit because the queues look empty) (=C12.R4)', c12.r4_ring_teardown)
